@@ -32,10 +32,28 @@ Definition method_gets_vpn (m : method) : bool :=
 Definition source_raw (w : wiring) (vpn : bool) : bool := w_vpn_source w && vpn.
 Definition method_raw (w : wiring) (vpn : bool) : bool := method_gets_vpn (w_method w) && vpn.
 
+(* the snapshot length each filter builder returns next to the text (Gen/Wiring.v): it is compiled
+   into the accept instruction of the socket filter, and the kernel hands over at most that many bytes
+   of an accepted frame *)
+Definition snaplen_of (ff : filter_fn) : Z :=
+  match ff with
+  | FTcpBPF => tcp_snaplen
+  | FTcpSynAckBPF => synack_snaplen
+  | FIcmpBPF => icmp_snaplen
+  | FArpBPF => arp_snaplen
+  end.
+
+(* the filter runs on the whole frame; the processor sees the frame cut to the snapshot length *)
 Definition reported (w : wiring) (vpn : bool) (r : range) (st : dstate) (f : bytes) : bool :=
   bpf_sem (source_raw w vpn) (filter_of (w_filter w) r) f
   && is_record (snd (process (kind_of_method (w_method w)) (method_raw w vpn)
-                             (code_valid (kind_of_method (w_method w))) st f)).
+                             (code_valid (kind_of_method (w_method w))) st
+                             (take (snaplen_of (w_filter w)) f))).
+
+(* bytes of a frame the processors may need: link header + largest IPv4 header + largest TCP header /
+   ICMP header; Ethernet + ARP body *)
+Definition snap_need (k : kind) : Z :=
+  match k with KTcp _ _ => 14 + 60 + 60 | KIcmp => 14 + 60 + 8 | KArp => 14 + 28 end.
 
 (* ------------------------------------------------------------------ the property statement *)
 Inductive scan_class := STcp | STcpSyn | SIcmp | SArp.
@@ -73,7 +91,7 @@ Definition reply_shape (c : scan_class) (raw : bool) (r : range) (f : bytes) : b
             (* sender protocol address = bytes 28..31 of the frame *)
   end.
 
-(* an unfragmented well-formed frame: a byte string; Ethernet II or raw IPv4; an IPv4 packet has version
+(* an unfragmented well-formed frame: a byte string shorter than 64 KiB; Ethernet II or raw IPv4; an IPv4 packet has version
    4, IHL >= 5, header <= total length <= captured length (a zero total length, as segmentation
    offload leaves it, counts as the captured length), MF = 0 and offset 0, TLV-well-formed options,
    and, when it carries TCP or ICMP, a complete transport header (TCP: data offset >= 5 inside the
@@ -91,7 +109,7 @@ Definition wf_ip (p : bytes) : bool :=
       else if byte_at 9 p =? 1 then icmp_header (ip_body p) else true).
 
 Definition wf_unfrag (raw : bool) (f : bytes) : bool :=
-  wf_bytes f &&
+  wf_bytes f && (Zlength f <? 65536) &&
   if raw then wf_ip f
   else if eth_header 2048 f then wf_ip (drop 14 f)
   else if eth_header 2054 f then arp_6_4 (drop 14 f)
@@ -101,6 +119,8 @@ Definition wf_unfrag (raw : bool) (f : bytes) : bool :=
 Definition flags512 : list Z := map Z.of_nat (seq 0 512).
 
 Definition cmd_wiring_ok (w : wiring) : bool :=
+  (* the snapshot length never cuts into a header chain the scan method has to decode *)
+  (snap_need (kind_of_method (w_method w)) <=? snaplen_of (w_filter w)) &&
   match class_of_cmd (w_cmd w), w_method w, w_filter w with
   | Some STcp, MTcp pf _, FTcpBPF =>
       forallb pf flags512 && method_gets_vpn (w_method w) && w_vpn_source w
@@ -121,14 +141,14 @@ Definition cmd_wiring_ok (w : wiring) : bool :=
 Record case := { k_filter : Z;            (* 0 tcp.BPFFilter 1 tcp.SYNACKBPFFilter 2 icmp.BPFFilter 3 arp.BPFFilter *)
                  k_raw : bool;
                  k_subnet : option (Z * Z); k_ports : list (Z * Z);
-                 k_text : packed;
+                 k_text : packed; k_snap : Z;
                  k_frames : list packed;
                  k_verdicts : list bool }.
 
 Definition filter_fn_of (c : Z) : filter_fn :=
   if c =? 0 then FTcpBPF else if c =? 1 then FTcpSynAckBPF else if c =? 2 then FIcmpBPF else FArpBPF.
 
-(* codes: 1 the filter text differs; 100 + i: frame i gets a different verdict *)
+(* codes: 1 the filter text differs; 3 the snapshot length differs; 100 + i: frame i gets a different verdict *)
 Fixpoint verdict_mismatches (raw : bool) (e : bexpr) (i : Z) (fs : list packed) (vs : list bool) : list Z :=
   match fs, vs with
   | f :: fs', v :: vs' =>
@@ -141,6 +161,7 @@ Definition check_case (c : case) : list Z :=
   let r := {| r_subnet := k_subnet c; r_ports := k_ports c |} in
   let ff := filter_fn_of (k_filter c) in
   (if bytes_eqb (text_of ff r) (unpack (k_text c)) then [] else [1])
+  ++ (if snaplen_of ff =? k_snap c then [] else [3])
   ++ verdict_mismatches (k_raw c) (filter_of ff r) 0 (k_frames c) (k_verdicts c).
 
 Fixpoint check_all (i : nat) (cs : list case) : list (nat * list Z) :=
